@@ -758,6 +758,9 @@ impl PaZipCompressor {
             let end = (start + BLOCK_SIZE).min(input.len());
             let block = &input[start..end];
 
+            // compress_sequential appends to the shared staging buffer and copies all of it
+            // out: start every block with an empty one
+            self.output_buffer.clear();
             let mut block_output = Vec::new();
             self.compress_sequential(block, &mut block_output)?;
             compressed_blocks.push(block_output);
@@ -768,6 +771,8 @@ impl PaZipCompressor {
         for block in compressed_blocks {
             output.extend_from_slice(&block);
         }
+        self.stats.bytes_processed = input.len() as u64;
+        self.stats.bytes_output = output.len() as u64;
 
         Ok(())
     }
